@@ -5,6 +5,7 @@ CONSTANTS
   Gates = 2
   NCallSets = 6
   Rounds = 20
+  First = 1
 INVARIANTS
   Check
 CHECK_DEADLOCK FALSE
